@@ -95,6 +95,17 @@ def conversion_tu(seed):
             b = f"{B}affine<{B}{ib}<{rng.choice(lays)},{V}<float,{n}>>>"
             lines.append(f"template void conv<{a},{b}>(const covfie::field<{a}> &);\n")
             n_pairs += 1
+    # interpolator swaps that also change the interpolator's coordinate scalar (float <-> double)
+    for n in (1, 2, 3):
+        arr = f"{B}array<{V}<float,{n}>>"
+        iv = f"{V}<std::size_t,{n}>"
+        st = f"{B}strided<{iv},{arr}>"
+        mo = f"{B}morton<{iv},{arr},false>"
+        for a_, b_ in ((f"{B}nearest_neighbour<{st},{V}<float,{n}>>", f"{B}linear<{st},{V}<double,{n}>>"),
+                       (f"{B}linear<{st},{V}<double,{n}>>", f"{B}nearest_neighbour<{mo},{V}<float,{n}>>"),
+                       (f"{B}nearest_neighbour<{mo},{V}<double,{n}>>", f"{B}nearest_neighbour<{st},{V}<float,{n}>>")):
+            lines.append(f"template void conv<{a_},{b_}>(const covfie::field<{a_}> &);\n")
+            n_pairs += 1
     # the construction idioms of the examples (generate_test_field.cpp, slice3dto2d.cpp): a pack whose last element is the
     # owning data of the layer beneath as an lvalue (const or not) taken from another field
     lines.append("template <class Core, class Full> void idiom(covfie::field<Core> & cf, const covfie::field<Core> & ccf, typename Full::configuration_t a) {\n"
